@@ -221,3 +221,22 @@ def reach(i: int) -> bool:
     kept, paths = _universe([EPRE + a + ESUF] + FIXED, CONFIGS[0], j)
     globstub.UNIVERSE[:] = paths
     return len(list(FindInPaths(CONFIGS[0]).find(SEARCH, as_sid=False))) < 2
+
+
+def magic_name(i: int) -> bool:
+    """
+    An existing entity whose name contains glob magic, 'x[' + chr(i) + ']': FindInPaths finds it by its own Sid like the list search does.
+    (On the pinned tree this is the known finding C11-glob-magic: the value is handed to glob unescaped.)
+    pre: 0 <= i <= 0x10FFFF
+    post: _
+    """
+    c = chr(i)
+    if c in "/*?[]:,<>!^-\\" or c.isspace() or c == "":
+        return True
+    e = EPRE + "x[" + c + "]" + ESUF
+    kept, paths = _universe([e], CONFIGS[0], "")
+    if not kept:
+        return True
+    globstub.UNIVERSE[:] = paths
+    got = list(FindInPaths(CONFIGS[0]).find(e, as_sid=False))
+    return (e in got) or fail("entity-with-glob-magic-in-its-name-not-found-by-its-own-sid")
